@@ -104,7 +104,7 @@ LATE = ["v%d\tequ 1\n\tpushv st%d,v%d", "\tif 1\n\tnop", "\tsave", "\tsection se
         "mac%d\tmacro\n\tnop", "\tphase 100\n\tnop", "\tsave\n\tsave", "v%d\tequ 1\n\tpushv st%d,v%d\n\tpushv su%d,v%d"]
 OPTS = [["-Y"], ["-l"], ["-Werror"], ["-maxerrors", "1"], ["-maxerrors", "3"], ["-x"], ["-x", "-x"], ["-n"], ["-w"], ["-L"],
         ["-gnuerrors"], ["-E", "!1"], ["-E", "!2"], ["-E", "err.log"], ["-E"], ["-g", "MAP"], ["-u"], ["-C"],
-        ["-a"], ["-c"], ["-P"], ["-M"], ["-G"]]
+        ["-a"], ["-c"], ["-P"], ["-M"], ["-G"], ["+G"], ["+G", "-P"]]
 
 
 def gen_case(seed):
@@ -204,7 +204,8 @@ def judge(sc, names, r, san):
     opts = [a for a in argv[1:] if not a.endswith(".asm")] if argv and argv[0].startswith("/sim/bin/") else [a for a in argv if not a.endswith(".asm")]
     werror = "-Werror" in opts
     gnu = "-gnuerrors" in opts
-    no_code = "-G" in opts
+    gs = [a for a in opts if a in ("-G", "+G")]
+    no_code = bool(gs) and gs[-1] == "+G"  # code generation switched off (-G is its positive form: the default); the last one counts
     # -Y forgives branch-range errors of a pass whose labels still moved: they were written, but are taken out of the
     # count again.  Written error lines then are an upper bound of what the run is answerable for, not the exact number.
     forgiving = "-Y" in opts
@@ -294,6 +295,8 @@ def judge(sc, names, r, san):
     for n in names:
         p = r.files.get(cpath[n])
         d = per_file.get(n, [0, 0, False])
+        if no_code:
+            continue  # no code file is written or removed: whatever lies there is not this run's
         if d[0] > 0 and p is not None and not forgiving:
             out.append(("C02/code-file-left-after-errors", "%s.p exists (%d bytes) although %d error(s) were reported for it"
                          % (n, len(p), d[0])))
@@ -337,7 +340,7 @@ def judge(sc, names, r, san):
             if (left > 0) != (code != 0):
                 out.append(("C02/summary-vs-exit", "summaries count %d error(s) after forgiving, exit %d" % (left, code)))
             for n, (se, _) in zip(names, sums):
-                if se > 0 and r.files.get(cpath[n]) is not None:
+                if se > 0 and r.files.get(cpath[n]) is not None and not no_code:
                     out.append(("C02/code-file-left-after-errors", "%s.p exists although its summary counts %d error(s)" % (n, se)))
         for n, s1 in zip(names, lsts):
             if s1 and not fatal_seen and len(s1) == 1:
